@@ -644,6 +644,13 @@ func calculateHashesAndRootPositions(numLeaves uint64, delHashes []Hash, proof P
 			// the next proof hash to calculate the parent.
 			sibHash = proof.Proof[proofHashIdx]
 			proofHashIdx++
+
+			// A node that exists never has the empty hash. An empty proof hash
+			// would be taken as a deleted sibling and move the hash up as is.
+			if sibHash == empty {
+				return hashAndPos{}, nil, nil, fmt.Errorf("invalid proof. Proof hash %d "+
+					"is empty", proofHashIdx-1)
+			}
 		}
 
 		// Calculate the next hash.
